@@ -192,18 +192,22 @@ UNIT = dict(
     dict(id='hp_reclaim', entry='h_reclaim', defs=dict(XV_E=3, XV_K=3, XV_L=1, XV_LA=3), unwindset=['hp_reclaim_nodes.0:5'], cls='shape-complete', timeout=900,
          note='vector of 0..9 arbitrary sorted words, list of 0..3 nodes, 0..1 nodes already kept'),
     dict(id='he_reclaim', entry='h_reclaim', defs=dict(XV_HE=1, XV_E=3, XV_K=3, XV_L=1, XV_LA=3), unwindset=['he_reclaim_nodes.0:5'], cls='shape-complete', timeout=900),
+    dict(id='hp_gather', entry='h_gather', defs=dict(XV_E=3, XV_K=3), unwindset=['hp_gather_range.0:5'], cls='shape-complete', note='one control block of 3 slots, vector prefix 0..6'),
+    dict(id='he_gather', entry='h_gather', defs=dict(XV_HE=1, XV_E=3, XV_K=3), unwindset=['he_gather_range.0:5'], cls='shape-complete'),
+    dict(id='hp_gather_5', entry='h_gather', tiers=['thorough'], defs=dict(XV_E=3, XV_K=5), unwindset=['hp_gather_range.0:7'], cls='shape-complete'),
+    dict(id='he_gather_5', entry='h_gather', tiers=['thorough'], defs=dict(XV_HE=1, XV_E=3, XV_K=5), unwindset=['he_gather_range.0:7'], cls='shape-complete'),
     dict(id='hp_reclaim_5', entry='h_reclaim', tiers=['thorough'], defs=dict(XV_E=3, XV_K=3, XV_L=2, XV_LA=5), unwindset=['hp_reclaim_nodes.0:7'], cls='shape-complete', timeout=3000),
     dict(id='he_reclaim_5', entry='h_reclaim', tiers=['thorough'], defs=dict(XV_HE=1, XV_E=3, XV_K=3, XV_L=2, XV_LA=5), unwindset=['he_reclaim_nodes.0:7'], cls='shape-complete', timeout=3000),
     # scan / ~thread_data: real text of scan, for_each loop, iterator, is_active, gather, try_get_*, adopt/abandon, release_entry, abandon; reclaim_nodes by contract
-    dict(id='hp_scan', entry='h_scan', defs=dict(XV_STUB_RECLAIM=1, XV_E=3, XV_K=3, XV_L=3, XV_LA=2), unwindset=unw(3, 3, 3, 2, 'hp'), cls='shape-complete', timeout=900,
+    dict(id='hp_scan', entry='h_scan', defs=dict(XV_ABS_VEC=1, XV_E=3, XV_K=3, XV_L=3, XV_LA=2), unwindset=unw(3, 3, 3, 2, 'hp'), cls='shape-complete', timeout=900,
          note='SEQ: <=3 entries x 3 slots (every state / slot word), 0..3 retired + 0..2 abandoned nodes'),
-    dict(id='hp_scan_int', entry='h_scan_int', mode='INT', defs=dict(XV_STUB_RECLAIM=1, XV_E=3, XV_K=3, XV_L=3, XV_LA=2), unwindset=unw(3, 3, 3, 2, 'hp'), cls='shape-complete', timeout=900,
+    dict(id='hp_scan_int', entry='h_scan_int', mode='INT', defs=dict(XV_ABS_VEC=1, XV_E=3, XV_K=3, XV_L=3, XV_LA=2), unwindset=unw(3, 3, 3, 2, 'hp'), cls='shape-complete', timeout=900,
          note='INT: other threads rewrite any slot word and any entry state between any two atomic accesses of the scan'),
-    dict(id='hp_dtor', entry='h_dtor', defs=dict(XV_STUB_RECLAIM=1, XV_E=3, XV_K=3, XV_L=3, XV_LA=2), unwindset=unw(3, 3, 3, 2, 'hp'), cls='shape-complete', timeout=900),
+    dict(id='hp_dtor', entry='h_dtor', defs=dict(XV_ABS_VEC=1, XV_E=3, XV_K=3, XV_L=3, XV_LA=2), unwindset=unw(3, 3, 3, 2, 'hp'), cls='shape-complete', timeout=900),
     dict(id='hp_trigger', entry='h_trigger', cls='unbounded', note='all counter values < 2^60 / active-slot counts < 2^32; A, B as compiled (defaults 2, 100)'),
-    dict(id='he_scan', entry='h_scan', defs=dict(XV_HE=1, XV_STUB_RECLAIM=1, XV_E=3, XV_K=3, XV_L=3, XV_LA=2), unwindset=unw(3, 3, 3, 2, 'he'), cls='shape-complete', timeout=900),
-    dict(id='he_scan_int', entry='h_scan_int', mode='INT', defs=dict(XV_HE=1, XV_STUB_RECLAIM=1, XV_E=3, XV_K=3, XV_L=3, XV_LA=2), unwindset=unw(3, 3, 3, 2, 'he'), cls='shape-complete', timeout=900),
-    dict(id='he_dtor', entry='h_dtor', defs=dict(XV_HE=1, XV_STUB_RECLAIM=1, XV_E=3, XV_K=3, XV_L=3, XV_LA=2), unwindset=unw(3, 3, 3, 2, 'he'), cls='shape-complete', timeout=900),
+    dict(id='he_scan', entry='h_scan', defs=dict(XV_HE=1, XV_ABS_VEC=1, XV_E=3, XV_K=3, XV_L=3, XV_LA=2), unwindset=unw(3, 3, 3, 2, 'he'), cls='shape-complete', timeout=900),
+    dict(id='he_scan_int', entry='h_scan_int', mode='INT', defs=dict(XV_HE=1, XV_ABS_VEC=1, XV_E=3, XV_K=3, XV_L=3, XV_LA=2), unwindset=unw(3, 3, 3, 2, 'he'), cls='shape-complete', timeout=900),
+    dict(id='he_dtor', entry='h_dtor', defs=dict(XV_HE=1, XV_ABS_VEC=1, XV_E=3, XV_K=3, XV_L=3, XV_LA=2), unwindset=unw(3, 3, 3, 2, 'he'), cls='shape-complete', timeout=900),
     dict(id='he_trigger', entry='h_trigger', defs=dict(XV_HE=1), cls='unbounded'),
     # everything real in one piece (no stub for reclaim_nodes): cross-check of the composition, small shape
     dict(id='hp_scan_whole', entry='h_scan', tiers=['thorough'], defs=dict(XV_E=2, XV_K=2, XV_L=2, XV_LA=1), unwindset=unw(2, 2, 2, 1, 'hp'), cls='shape-complete', timeout=3000),
